@@ -207,8 +207,11 @@ def run(ctx):
 
     ctx.rule('R5', "clean patch state afterwards: the grader's timeout arm releases through _stop_mocking (C05.R3 "
                    "applied to the grader role)")
-    direct = [c for x in grader_stmts for c in calls(x) if is_self_call(c, '_stop_patches')]
-    via = [c for x in grader_stmts for c in calls(x) if is_self_call(c, '_stop_mocking')]
+    from ..astutil import flat_self_calls
+    gseq = flat_self_calls(list(grader_stmts), mod.cls('Sandbox'),
+                           stop=('_stop_mocking', '_stop_patches', '_capture_exception'))
+    direct = [c for c in gseq if is_self_call(c, '_stop_patches')]
+    via = [c for c in gseq if is_self_call(c, '_stop_mocking')]
     ctx.check(bool(via) or bool(direct), 'R5', 'grader-arm:releases-at-all', mod,
               grader_handlers[0] if grader_handlers else ewt,
               "the timeout arm releases nothing: after a time-limit violation sys.stdout, sys.modules and time.sleep "
